@@ -22,8 +22,10 @@ def is_scoped_template(template_typenames: Sequence[str],
     the corresponding index matches the scoped template correctly.
     """
     for idx, template in enumerate(template_typenames):
+        # The template is the scope: it is the first component of the name
+        # (`ns::T` is a type called T in namespace ns, not the template T).
         if "::" in str_arg_typename and \
-            template in str_arg_typename.split("::"):
+            template == str_arg_typename.split("::")[0]:
             return template, idx
     return False, -1
 
@@ -74,7 +76,9 @@ def instantiate_type(
     # Check if the type has template parameters as template arguments
     if ctype.typename.instantiations:
         for instantiation in ctype.typename.instantiations:
-            if instantiation.name in template_typenames:
+            # `ns::T` is a type called T in namespace ns, not the template T.
+            if instantiation.name in template_typenames and \
+                    all(ns == 'This' for ns in instantiation.namespaces):
                 template_idx = template_typenames.index(instantiation.name)
                 replacement = instantiations[template_idx]
                 # Spell the argument as the instantiation (the name stays a string).
@@ -106,8 +110,7 @@ def instantiate_type(
             [instantiation.name], instantiation.instantiations).to_cpp()
         instantiation.instantiations = []
         instantiation.name = "::".join(
-            instantiated_part if part == scoped_template else part
-            for part in str_arg_typename.split("::"))
+            [instantiated_part] + str_arg_typename.split("::")[1:])
         return parser.Type(
             typename=instantiation,
             is_const=ctype.is_const,
